@@ -198,7 +198,8 @@ def fallback_search(kind, which):
     lists = [None, []] + [[t] for t in specials + alike]
     lists += [list(p) for p in itertools.permutations(['income', 'transfer', 'investment'], 2)]
     lists += [list(p) for p in itertools.permutations(['Income', 'TRANSFER', 'Investment'], 3)]
-    lists += [[a, 'food'] for a in specials] + [['food', a] for a in alike]
+    lists += [[a, 'food'] for a in specials] + [['food', a] for a in alike] + [['Recurring', a] for a in specials] + [['FOOD', a, 'Misc'] for a in specials]
+    lists = lists + lists        # the same inputs twice in one loaded script: state kept between calls shows up
     amounts = [-2.5, -0.0, 0.0, 3.0, nan]
     if kind == 'excluded':
         js = run_js([('isExcludedFromSpending', [t]) for t in lists])
